@@ -56,9 +56,7 @@ Class(r) ==
       e == Expect(r)
       d == IF T.k = "num" THEN EffDiv(T.div, r.d) ELSE 1
       n == Len(r.b)
-  IN CASE HasList(r) /\ "REQ" \in T.fl /\ RawOf(T, NBits(r), r.b) = 0 /\ e.k = "val" /\ r.rc = 0
-            -> "VLREQ0"
-       [] T.k = "day" /\ r.b[1] = 255 /\ r.b[2] # 255 -> "DAYLOFF"
+  IN CASE T.k = "day" /\ r.b[1] = 255 /\ r.b[2] # 255 -> "DAYLOFF"
        [] T.k = "day" /\ r.b[2] = 0 /\ r.b[1] < 59 -> "DAY1900"
        [] T.k = "min" /\ r.b[1] = 255 /\ r.b[2] # 255 -> "MINLOFF"
        [] T.k = "date" /\ r.rc = 0 /\ r.b[n] = 255 -> "YEARFF"
